@@ -76,7 +76,7 @@ extern "C" void harness() {
         CHECK(!threw, "a line with two tokens is accepted");
         if (!threw) {
             bool ok = tok[0].size() == t1e - t1s && tok[1].size() == t2e - t2s && tok[2].size() == (rest ? len - t3s : 0);
-            for (unsigned k = 0; k < LLEN; ++k) { if (k < tok[0].size() && tok[0][k] != raw[t1s + k]) ok = false; if (k < tok[1].size() && tok[1][k] != raw[t2s + k]) ok = false; if (k < tok[2].size() && tok[2][k] != raw[t3s + k]) ok = false; }
+            for (unsigned k = 0; k < LLEN; ++k) if (ok) { if (k < tok[0].size() && tok[0][k] != raw[t1s + k]) ok = false; if (k < tok[1].size() && tok[1][k] != raw[t2s + k]) ok = false; if (k < tok[2].size() && tok[2][k] != raw[t3s + k]) ok = false; }   // (sizes were compared first, so the indices stay inside the line)
             CHECK(ok, "the three returned strings are the first two whitespace-delimited tokens and the rest of the line");
             if (rest) REACH("line with a label part"); if (t1s > 0) REACH("line with leading whitespace");
         }
